@@ -19,7 +19,7 @@ import vlib
 
 LEVEL = "model_checking"
 
-INVS = "Honest, ColdWhenOld, AllUpIsComplete, FetchIsGreedy"
+INVS = "Honest, ColdWhenOld, AllUpIsComplete, FetchIsGreedy, RetentionHonest"
 
 
 def _scan(path, stats, samples, distinct):
@@ -52,15 +52,17 @@ def run(ctx):
     if quick:
         fams = [("search", "ProxyRead_search.cfg", None), ("search8", "ProxyRead_search8.cfg", None),
                 ("merge", "ProxyRead_merge.cfg", None), ("fetch", "ProxyRead_fetch.cfg", None),
-                ("fetch3", "ProxyRead_fetch3.cfg", None), ("rand", "ProxyRead_rand.cfg", ("num=150", 21))]
+                ("fetch3", "ProxyRead_fetch3.cfg", None), ("store", "ProxyRead_store.cfg", None),
+                ("rand", "ProxyRead_rand.cfg", ("num=150", 21))]
         asis = "ProxyRead_asis.cfg"
-        api_every = {"search": 7, "search8": 2, "merge": 5, "fetch": 5, "fetch3": 1, "rand": 1}
+        api_every = {"search": 7, "search8": 2, "merge": 5, "fetch": 5, "fetch3": 1, "store": 1, "rand": 1}
     else:
         fams = [("search", "ProxyRead_searchfull.cfg", None), ("search8", "ProxyRead_search8full.cfg", None),
                 ("merge", "ProxyRead_mergefull.cfg", None), ("fetch", "ProxyRead_fetchfull.cfg", None),
-                ("fetch3", "ProxyRead_fetch3full.cfg", None), ("rand", "ProxyRead_rand.cfg", ("num=3000", 21))]
+                ("fetch3", "ProxyRead_fetch3full.cfg", None), ("store", "ProxyRead_store.cfg", None),
+                ("rand", "ProxyRead_rand.cfg", ("num=3000", 21))]
         asis = "ProxyRead_asisfull.cfg"
-        api_every = {"search": 5, "search8": 2, "merge": 11, "fetch": 3, "fetch3": 3, "rand": 1}
+        api_every = {"search": 5, "search8": 2, "merge": 11, "fetch": 3, "fetch3": 3, "store": 1, "rand": 4}
     per = max(2, vlib.NCPU // 4)
 
     def tlc(job):
@@ -108,8 +110,10 @@ def run(ctx):
             return 0
     stats = D()
     samples, distinct = [], set()
+    statsf = os.path.join(ctx.scratch, "driver-stats.jsonl")
     for label, cfg, cf, r in results:
-        args = ["-workers", str(vlib.NCPU), "-paths", "ingestor,api", "-api-every", str(api_every[label])]
+        args = ["-workers", str(vlib.NCPU), "-paths", "ingestor,api", "-api-every", str(api_every[label]),
+                "-stats", statsf]
         mism, summ, _ = vlib.run_cases(ctx, drv, args, cf, label=label, timeout=3000)
         for k in tot:
             tot[k] += summ[k]
@@ -125,6 +129,17 @@ def run(ctx):
                     "crash": "driver process died"}.get(m.get("what"), "outcome outside Allowed(scenario)")
             ctx.violation(sig, m, what=what)
         _scan(cf, stats, samples, distinct)
+    drv_stats = D()
+    if os.path.exists(statsf):
+        with open(statsf) as fh:
+            for ln in fh:
+                for k, v in json.loads(ln).items():
+                    drv_stats[k] += v
+    ctx.cov["replays_through_proxy_grpc_api"] = drv_stats["api"]
+    ctx.cov["replays_against_real_store"] = drv_stats["store"]
+    ctx.cov["racing_alternatives"] = {"allowed": drv_stats["racing_alts"], "observed": drv_stats["racing_alts_seen"],
+                                      "note": "members of Allowed over the scenarios with more than one member; each such scenario is "
+                                              "replayed 3 times (undisturbed, odd shards slow, even shards slow)"}
     ctx.cov["traces_validated_against_impl"] = tot["cases"]
     ctx.cov["evaluations"] = tot["evals"]
     ctx.cov["distinct_nontrivial"] = len(distinct)
